@@ -176,3 +176,53 @@ func H_C12_truncated(keyLen, hostLen int) {
 		verifrt.Assert(err != nil && got == nil, "truncated-file-is-an-error")
 	}
 }
+
+// H_C12_two_loaders: two loader objects on one path used alternately (two clients, or a client and a tool, sharing
+// a session file): A stores s1, B stores s2, A stores s1 again (variant 1: A only *loads* s1 first, then B stores
+// s2, then A stores s1).  What a loader remembers about the file (a cache of the last content or time) must not make
+// a Store a no-op: after every Store both loaders and a fresh one read back the session stored last.
+func H_C12_two_loaders(keyLen, hostLen, variant int) {
+	dir := tmpDir()
+	defer os.RemoveAll(dir)
+	path := filepath.Join(dir, "session.json")
+	s1 := symSession(keyLen, 8, hostLen)
+	s2 := symSession(keyLen, 8, hostLen)
+	t1 := int64(verifrt.U32())
+	dt := int64(verifrt.Byte())
+	// a loader that trusts modification times cannot see a change made by SOMEBODY ELSE inside one timestamp tick:
+	// that is outside the claim (as in H_C12_truncated); writes by different loaders are at least one tick apart
+	verifrt.Assume(dt >= 1)
+	a, b := NewFromFile(path), NewFromFile(path)
+	// variant&2: between the stores only a fresh loader looks at the file (a loader that is asked in between
+	// refreshes whatever it remembers, which hides what it would do when it is not asked)
+	final := false
+	check := func(want *Session, tag string) {
+		for i, l := range []SessionLoader{a, b, NewFromFile(path)} {
+			if variant&2 != 0 && !final && i < 2 {
+				continue
+			}
+			got, err := l.Load()
+			verifrt.Assert(err == nil, tag+"-load-ok")
+			if err == nil {
+				verifrt.Assert(sameSession(want, got), tag+"-last-store-wins-"+[]string{"first-loader", "second-loader", "fresh-loader"}[i])
+			}
+		}
+	}
+	if variant&1 == 1 {
+		verifrt.Assert(NewFromFile(path).Store(s1) == nil, "store-succeeds")
+		_ = os.Chtimes(path, time.Unix(t1, 0), time.Unix(t1, 0))
+		got, err := a.Load()
+		verifrt.Assert(err == nil && sameSession(s1, got), "load-returns-the-stored-session")
+	} else {
+		verifrt.Assert(a.Store(s1) == nil, "store-succeeds")
+		_ = os.Chtimes(path, time.Unix(t1, 0), time.Unix(t1, 0))
+		check(s1, "after-first-store")
+	}
+	verifrt.Assert(b.Store(s2) == nil, "store-by-second-loader-succeeds")
+	_ = os.Chtimes(path, time.Unix(t1+dt, 0), time.Unix(t1+dt, 0))
+	check(s2, "after-store-by-second-loader")
+	verifrt.Assert(a.Store(s1) == nil, "store-again-by-first-loader-succeeds")
+	_ = os.Chtimes(path, time.Unix(t1+2*dt, 0), time.Unix(t1+2*dt, 0))
+	final = true
+	check(s1, "after-store-again-by-first-loader")
+}
